@@ -33,6 +33,8 @@ POOL_LABEL = {"confuse": "texts that coincide under white-space / case normalisa
               "alias": "the same document node reached twice (both operands, two calls on one array of 16 / 17 elements)",
               "hash": "multi-select hashes with keys out of order / repeated / non-ASCII in every position and with every continuation",
               "nest": "by-functions and map inside the expression reference of a by-function",
+              "errpair": "two failing sub-expressions (type / arity / unknown function / zero step) under every binary construct: the first failure wins",
+              "deep": "every nesting constructor at depths 1..8 on a document nested to match",
               "compose": "every built-in on what the any-typed built-ins pass through (expression references inside containers included)"}
 
 
@@ -71,7 +73,7 @@ def run(prop, tier, seed, work, ev):
     gen(work, "chains", c, n=t["chains"])
     rejects += run_and_judge("operator chains: primary + every sequence of <= %d postfix operators x 3 nested documents" % t["chains"],
                              c, work, ev, drv, docs=c + ".docs")
-    rejects += pool_families(["confuse", "bool", "inflate", "alias", "hash", "nest"], work, ev, drv)
+    rejects += pool_families(["confuse", "bool", "inflate", "alias", "hash", "nest", "errpair", "deep"], work, ev, drv)
     params = work.path("rand.in")
     e = dict(os.environ, GEN_MAXLEN=str(t["maxlen"]))
     subprocess.check_call([drv, "gen", "eval", str(seed), str(t["rand"]), params], env=e)
